@@ -490,6 +490,47 @@ func corpus(x Inst, r *rand.Rand, own []string, thorough bool) []string {
 	return c
 }
 
+// Texts of exact lengths around the sizes at which a reader's buffer fills (multiples of 128 up to 4 KiB, powers of two
+// and 512 * (2^k - 1), the chunk ends of encoding/json's Decoder, up to 64 KiB): a valid document padded with white space
+// inside, or behind its closing bracket, to end exactly there - alone (it must load) and followed by garbage (it must not)
+func lengthCorpus(x Inst) []string {
+	head, tail := "[1,", "2]"
+	if isKV(x) {
+		head, tail = `{"1":10,`, `"2":20}`
+	} else if _, ok := x.(*heapInst); ok {
+		head, tail = `[{"p":1,"id":1},`, `{"p":2,"id":1}]`
+	}
+	lens := map[int]bool{}
+	for k := 1; k <= 32; k++ {
+		for d := -1; d <= 1; d++ {
+			lens[k*128+d] = true
+		}
+	}
+	for k := 1; k <= 7; k++ {
+		for d := -1; d <= 1; d++ {
+			lens[512*(1<<k-1)+d] = true
+			lens[512<<k+d] = true
+		}
+	}
+	var ls []int
+	for l := range lens {
+		ls = append(ls, l)
+	}
+	sort.Ints(ls)
+	var out []string
+	for _, l := range ls {
+		pad := l - len(head) - len(tail)
+		if pad < 3 {
+			continue
+		}
+		inside := head + strings.Repeat(" ", pad) + tail       // the closing bracket is byte l
+		behind := head + tail + strings.Repeat(" ", pad)       // white space up to byte l
+		nl := head + strings.Repeat("\n", pad-1) + tail + "\n" // closing bracket at l-1, a line feed at l
+		out = append(out, inside, inside+"x", inside+" [7]", inside+"]", behind, behind+"x", behind+",1", nl+"}", nl)
+	}
+	return out
+}
+
 func loadEvent(u Universe, path []Call, text string, viaUnmarshal bool) {
 	x := replay(u, path)
 	op := "FromJSON"
@@ -561,6 +602,13 @@ func normObs(x Inst, o Ev) Ev {
 				n[k] = ys
 				continue
 			}
+		case "ent": // [[key, value, found] ...] in the order of Keys()
+			if xs, ok := v.([][]any); ok {
+				ys := append([][]any{}, xs...)
+				sort.SliceStable(ys, func(a, b int) bool { return fmt.Sprint(ys[a]) < fmt.Sprint(ys[b]) })
+				n[k] = ys
+				continue
+			}
 		}
 		n[k] = v
 	}
@@ -568,6 +616,7 @@ func normObs(x Inst, o Ev) Ev {
 }
 
 func jobJSON(j *jobCtx) {
+	lengthDone := map[string]bool{}
 	strRoundTrips(j)
 	structRoundTrips(j)
 	for _, u := range jsonUniverses(j) {
@@ -588,6 +637,20 @@ func jobJSON(j *jobCtx) {
 		otherPaths = nil
 		for i := len(paths) - 1; i >= 0 && len(otherPaths) < 2; i -= 1 + len(paths)/3 {
 			otherPaths = append(otherPaths, paths[i])
+		}
+		// first (fixed cost): the length corpus, over the empty container and over one with content
+		if !lengthDone[x0.Kind()] {
+			lengthDone[x0.Kind()] = true
+			for pi, p := range paths {
+				if pi == 0 || pi == len(paths)/2 {
+					for ti, t := range lengthCorpus(x0) {
+						if !j.quick() || pi == 0 || ti%3 == 1 {
+							loadEvent(u, p, t, (ti+pi)%5 == 4)
+							j.edges++
+						}
+					}
+				}
+			}
 		}
 		for i, p := range paths {
 			if budgetExceeded() {
@@ -787,29 +850,87 @@ func cmpSE(a, b SE) int {
 	return 0
 }
 
-type seBox struct {
-	kind  string
-	mk    func() any
-	add   func(c any, e SE)
-	vals  func(c any) []SE
-	drain func(c any) []SE
+// PM: a struct whose JSON methods have POINTER receivers (the usual convention): encoding/json uses them for addressable
+// values only - slice elements are, values passed to json.Marshal one by one are not.  Text form "major.minor".
+type PM struct{ Major, Minor int }
+
+func (p *PM) MarshalJSON() ([]byte, error) {
+	return json.Marshal(fmt.Sprintf("%d.%d", p.Major, p.Minor))
+}
+func (p *PM) UnmarshalJSON(b []byte) error {
+	var t string
+	if err := json.Unmarshal(b, &t); err != nil {
+		return err
+	}
+	if _, err := fmt.Sscanf(t, "%d.%d", &p.Major, &p.Minor); err != nil {
+		return err
+	}
+	return nil
+}
+func cmpPM(a, b PM) int {
+	if a.Major != b.Major {
+		return a.Major - b.Major
+	}
+	return a.Minor - b.Minor
 }
 
-func seBoxes() []seBox {
-	type adder interface{ Add(...SE) }
-	type valuer interface{ Values() []SE }
-	vals := func(c any) []SE { return c.(valuer).Values() }
-	addL := func(c any, e SE) { c.(adder).Add(e) }
-	none := func(c any) []SE { return nil }
+// TM: the same with encoding.TextMarshaler / TextUnmarshaler on the pointer
+type TM struct{ A, B int }
+
+func (t *TM) MarshalText() ([]byte, error) { return []byte(fmt.Sprintf("%d/%d", t.A, t.B)), nil }
+func (t *TM) UnmarshalText(b []byte) error {
+	_, err := fmt.Sscanf(string(b), "%d/%d", &t.A, &t.B)
+	return err
+}
+func cmpTM(a, b TM) int {
+	if a.A != b.A {
+		return a.A - b.A
+	}
+	return a.B - b.B
+}
+
+// *SE: pointer elements, nil among them (JSON null)
+func strPSE(p *SE) string {
+	if p == nil {
+		return "nil"
+	}
+	return p.String()
+}
+func cmpPSE(a, b *SE) int {
+	switch {
+	case a == nil && b == nil:
+		return 0
+	case a == nil:
+		return -1
+	case b == nil:
+		return 1
+	}
+	return cmpSE(*a, *b)
+}
+
+type elemBox[E any] struct {
+	kind  string
+	mk    func() any
+	add   func(c any, e E)
+	vals  func(c any) []E
+	drain func(c any) []E
+}
+
+func elemBoxes[E comparable](cmp func(a, b E) int) []elemBox[E] {
+	type adder interface{ Add(...E) }
+	type valuer interface{ Values() []E }
+	vals := func(c any) []E { return c.(valuer).Values() }
+	addL := func(c any, e E) { c.(adder).Add(e) }
+	none := func(c any) []E { return nil }
 	type pusher interface {
-		Push(SE)
-		Pop() (SE, bool)
+		Push(E)
+		Pop() (E, bool)
 	}
 	type enq interface {
-		Enqueue(SE)
-		Dequeue() (SE, bool)
+		Enqueue(E)
+		Dequeue() (E, bool)
 	}
-	drainS := func(c any) (out []SE) {
+	drainS := func(c any) (out []E) {
 		for i := 0; i < 100; i++ {
 			v, ok := c.(pusher).Pop()
 			if !ok {
@@ -819,7 +940,7 @@ func seBoxes() []seBox {
 		}
 		return
 	}
-	drainQ := func(c any) (out []SE) {
+	drainQ := func(c any) (out []E) {
 		for i := 0; i < 100; i++ {
 			v, ok := c.(enq).Dequeue()
 			if !ok {
@@ -829,25 +950,25 @@ func seBoxes() []seBox {
 		}
 		return
 	}
-	push := func(c any, e SE) { c.(pusher).Push(e) }
-	enqueue := func(c any, e SE) { c.(enq).Enqueue(e) }
-	return []seBox{
-		{"arraylist", func() any { return arraylist.New[SE]() }, addL, vals, none},
-		{"singlylinkedlist", func() any { return singlylinkedlist.New[SE]() }, addL, vals, none},
-		{"doublylinkedlist", func() any { return doublylinkedlist.New[SE]() }, addL, vals, none},
-		{"hashset", func() any { return hashset.New[SE]() }, addL, vals, none},
-		{"linkedhashset", func() any { return linkedhashset.New[SE]() }, addL, vals, none},
-		{"treeset", func() any { return treeset.NewWith[SE](cmpSE) }, addL, vals, none},
-		{"arraystack", func() any { return arraystack.New[SE]() }, push, vals, drainS},
-		{"linkedliststack", func() any { return linkedliststack.New[SE]() }, push, vals, drainS},
-		{"arrayqueue", func() any { return arrayqueue.New[SE]() }, enqueue, vals, drainQ},
-		{"linkedlistqueue", func() any { return linkedlistqueue.New[SE]() }, enqueue, vals, drainQ},
-		{"circularbuffer", func() any { return circularbuffer.New[SE](4) }, enqueue, vals, drainQ},
-		{"priorityqueue", func() any { return priorityqueue.NewWith[SE](cmpSE) }, enqueue, vals, drainQ},
-		{"binaryheap", func() any { return binaryheap.NewWith[SE](cmpSE) }, func(c any, e SE) { c.(*binaryheap.Heap[SE]).Push(e) }, vals,
-			func(c any) (out []SE) {
+	push := func(c any, e E) { c.(pusher).Push(e) }
+	enqueue := func(c any, e E) { c.(enq).Enqueue(e) }
+	return []elemBox[E]{
+		{"arraylist", func() any { return arraylist.New[E]() }, addL, vals, none},
+		{"singlylinkedlist", func() any { return singlylinkedlist.New[E]() }, addL, vals, none},
+		{"doublylinkedlist", func() any { return doublylinkedlist.New[E]() }, addL, vals, none},
+		{"hashset", func() any { return hashset.New[E]() }, addL, vals, none},
+		{"linkedhashset", func() any { return linkedhashset.New[E]() }, addL, vals, none},
+		{"treeset", func() any { return treeset.NewWith[E](cmp) }, addL, vals, none},
+		{"arraystack", func() any { return arraystack.New[E]() }, push, vals, drainS},
+		{"linkedliststack", func() any { return linkedliststack.New[E]() }, push, vals, drainS},
+		{"arrayqueue", func() any { return arrayqueue.New[E]() }, enqueue, vals, drainQ},
+		{"linkedlistqueue", func() any { return linkedlistqueue.New[E]() }, enqueue, vals, drainQ},
+		{"circularbuffer", func() any { return circularbuffer.New[E](4) }, enqueue, vals, drainQ},
+		{"priorityqueue", func() any { return priorityqueue.NewWith[E](cmp) }, enqueue, vals, drainQ},
+		{"binaryheap", func() any { return binaryheap.NewWith[E](cmp) }, func(c any, e E) { c.(*binaryheap.Heap[E]).Push(e) }, vals,
+			func(c any) (out []E) {
 				for i := 0; i < 100; i++ {
-					v, ok := c.(*binaryheap.Heap[SE]).Pop()
+					v, ok := c.(*binaryheap.Heap[E]).Pop()
 					if !ok {
 						break
 					}
@@ -858,22 +979,31 @@ func seBoxes() []seBox {
 	}
 }
 
+// round trips of containers whose elements are not integers: plain structs (omitempty fields), structs with pointer-receiver
+// JSON / text methods, pointers (nil among them).  The text form of an element (str) stands for it in the event.
 func structRoundTrips(j *jobCtx) {
-	strs := func(vs []SE) []any {
+	elemRoundTrips(j, "se", []SE{{1, "first"}, {2, ""}, {3, "x"}, {0, ""}, {4, "first"}, {5, ""}}, cmpSE, func(e SE) string { return e.String() })
+	elemRoundTrips(j, "pm", []PM{{1, 2}, {0, 0}, {3, 10}, {1, 0}, {12, 7}, {2, 2}}, cmpPM, func(e PM) string { return fmt.Sprintf("%d.%d", e.Major, e.Minor) })
+	elemRoundTrips(j, "tm", []TM{{1, 2}, {0, 0}, {3, 10}, {1, 0}, {12, 7}, {2, 2}}, cmpTM, func(e TM) string { return fmt.Sprintf("%d/%d", e.A, e.B) })
+	a, b, c, d := &SE{1, "first"}, &SE{2, ""}, &SE{0, ""}, &SE{4, "x"}
+	elemRoundTrips(j, "pse", []*SE{a, nil, b, c, d, a}, cmpPSE, strPSE)
+}
+
+func elemRoundTrips[E comparable](j *jobCtx, tag string, pool []E, cmp func(a, b E) int, str func(E) string) {
+	strs := func(vs []E) []any {
 		out := []any{}
 		for _, v := range vs {
-			out = append(out, v.String())
+			out = append(out, str(v))
 		}
 		return out
 	}
-	pool := []SE{{1, "first"}, {2, ""}, {3, "x"}, {0, ""}, {4, "first"}, {5, ""}}
-	for _, b := range seBoxes() {
+	for _, b := range elemBoxes[E](cmp) {
 		if !j.want(b.kind) {
 			continue
 		}
 		disc := jsonDisc(b.kind)
 		cfg := Ev{"disc": disc, "kv": false, "cmp": "", "vcmp": "", "cap": 4, "m": 0, "sorted": false, "linked": false, "bidi": false,
-			"vsorted": false, "zero": 0, "structs": true}
+			"vsorted": false, "zero": 0, "structs": true, "elem": tag}
 		for t := 0; t < 24; t++ {
 			c := b.mk()
 			n := 1 + t%5
@@ -909,7 +1039,7 @@ func structRoundTrips(j *jobCtx) {
 			e["loaderr2"], e["fresh2"], e["fsize2"] = e2 != nil || ci.Panic, strs(fz), len(fz)
 			e["odrain"], e["fdrain"], e["fdrain2"] = strs(b.drain(c)), strs(b.drain(y)), strs(b.drain(z))
 			emit(e)
-			distinct["rtse|"+b.kind+"|"+string(text)] = struct{}{}
+			distinct["rt"+tag+"|"+b.kind+"|"+string(text)] = struct{}{}
 		}
 	}
 }
